@@ -24,6 +24,7 @@ SRC = "/repo/src"
 FILES = ["copy.rs", "flattenexact.rs", "iter.rs", "ops.rs", "serde.rs", "sort.rs", "toodee.rs", "translate.rs", "view.rs"]
 S = "/tmp/mut"
 OUT = "/verif/mutation"
+SET = os.environ.get("MUT_SET", "")  # "" = first sweep, "2" = second operator set
 RELEVANT = {
     "iter.rs": ["C08", "C09", "C10", "C02", "C12", "C07"],
     "view.rs": ["C03", "C02", "C08", "C09", "C10", "C20", "C13", "C14"],
@@ -64,6 +65,24 @@ OPS = [
     ("neg-cond", r"\bif (?!let)([^{]+) \{$", r"if !(\1) {"),
 ]
 
+OPS2 = [
+    ("if->true", r"\bif (?!let\b)([^{]+) \{$", "if true {"), ("if->false", r"\bif (?!let\b)([^{]+) \{$", "if false {"),
+    ("while->false", r"\bwhile (?!let\b)([^{]+) \{$", "while false {"),
+    ("arg+1", r"\b(add|sub|set_len|reserve|rotate_left|rotate_right|split_at|split_at_mut|nth|nth_back|truncate|reserve_exact|skip|take|step_by)\(([^()]+)\)", r"\1((\2) + 1)"),
+    ("arg-1", r"\b(add|sub|set_len|reserve|rotate_left|rotate_right|split_at|split_at_mut|nth|nth_back|truncate|reserve_exact|skip|take|step_by)\(([^()]+)\)", r"\1((\2) - 1)"),
+    ("copy-n+1", r"\b(copy|copy_nonoverlapping)\(([^(),]+), ([^(),]+), ([^()]+)\)", r"\1(\2, \3, (\4) + 1)"),
+    ("copy-n-1", r"\b(copy|copy_nonoverlapping)\(([^(),]+), ([^(),]+), ([^()]+)\)", r"\1(\2, \3, (\4) - 1)"),
+    ("copy-swap-args", r"\b(copy|copy_nonoverlapping)\(([^(),]+), ([^(),]+), ([^()]+)\)", r"\1(\3 as *const _, \2 as *mut _, \4)"),
+    ("range-lo+1", r"(?<![\w.])(\w[\w.()]*)\.\.(?=[\w(])", r"\1 + 1.."), ("range-hi-1", r"\.\.(\w[\w.()]*)(?![\w.(])", r"..\1 - 1"),
+    ("range-hi+1", r"\.\.(\w[\w.()]*)(?![\w.(])", r"..\1 + 1"),
+    ("Some->None", r"^(\s*)Some\(.*\)$", r"\1None"),
+    ("mul->mul+1", r"(\w+) \* (\w+)", r"(\1 * \2 + 1)"),
+    ("self.cols<->stride", r"\bself\.num_cols\b", "self.num_rows"), ("self.rows->cols", r"\bself\.num_rows\b", "self.num_cols"),
+    ("skip->0", r"\bself\.skip_cols\b", "0"), ("skip1->0", r"\bself\.skip\b", "0"),
+    ("front<->back", r"\bfrontiter\b", "backiter"), ("back<->front", r"\bbackiter\b", "frontiter"),
+    ("read->copy", r"ptr::read\(", "ptr::read_unaligned("),
+]
+
 
 def code_part(line):
     """(code, rest) with a trailing // comment split off; None if the line carries nothing to mutate"""
@@ -95,7 +114,7 @@ def gen():
             code, rest = cp
             if re.match(r"\s*(use|pub use|mod|pub mod|extern) ", code):
                 continue
-            for name, pat, rep in OPS:
+            for name, pat, rep in (OPS2 if SET == "2" else OPS):
                 for m in re.finditer(pat, code):
                     new = code[:m.start()] + m.expand(rep) + code[m.end():]
                     if new == code:
@@ -103,9 +122,12 @@ def gen():
                     muts.append({"file": f, "line": n + 1, "op": name, "before": line, "after": new + rest})
             # statement deletion: a whole single-line statement that is not a binding
             st = code.strip()
-            if st.endswith(";") and not re.match(r"(let|return|break|continue|type|const|static|pub|fn|impl|unsafe impl)\b", st) and st.count("(") == st.count(")"):
+            if SET == "" and st.endswith(";") and not re.match(r"(let|return|break|continue|type|const|static|pub|fn|impl|unsafe impl)\b", st) and st.count("(") == st.count(")"):
                 muts.append({"file": f, "line": n + 1, "op": "delete-stmt", "before": line, "after": re.match(r"\s*", line).group(0) + "/* deleted */"})
     # dedupe identical results
+    if SET == "2":
+        first = {(m["file"], m["line"], m["after"]) for m in load("mutants.jsonl")}
+        muts = [m for m in muts if (m["file"], m["line"], m["after"]) not in first and m["op"] not in ("self.cols<->stride", "self.rows->cols")]
     seen, out = set(), []
     for m in muts:
         k = (m["file"], m["line"], m["after"])
@@ -114,7 +136,7 @@ def gen():
         seen.add(k)
         m["id"] = "M%04d" % len(out)
         out.append(m)
-    with open(os.path.join(OUT, "mutants.jsonl"), "w") as fh:
+    with open(os.path.join(OUT, "mutants%s.jsonl" % SET), "w") as fh:
         for m in out:
             fh.write(json.dumps(m) + "\n")
     by = {}
@@ -176,8 +198,8 @@ def p1_worker(args):
 
 
 def phase1(limit=None):
-    muts = load("mutants.jsonl")
-    done = {r["id"] for r in load("phase1.jsonl")}
+    muts = load("mutants%s.jsonl" % SET)
+    done = {r["id"] for r in load("phase1%s.jsonl" % SET)}
     todo = [m for m in muts if m["id"] not in done]
     if limit:
         random.Random(1).shuffle(todo)
@@ -187,7 +209,7 @@ def phase1(limit=None):
     # small chunks so that results are flushed regularly
     chunks = [todo[i:i + 8] for i in range(0, len(todo), 8)]
     jobs = []
-    with cf.ProcessPoolExecutor(W) as ex, open(os.path.join(OUT, "phase1.jsonl"), "a") as fh:
+    with cf.ProcessPoolExecutor(W) as ex, open(os.path.join(OUT, "phase1%s.jsonl" % SET), "a") as fh:
         free = list(range(W))
         pending = {}
         it = iter(chunks)
@@ -245,9 +267,9 @@ def p2_worker(args):
             "checks_run": nrun, "secs": round(time.time() - t0, 1)}
 
 
-def phase2(stages, limit=None, ids=None, outname="phase2.jsonl"):
-    muts = {m["id"]: m for m in load("mutants.jsonl")}
-    surv = [r["id"] for r in load("phase1.jsonl") if r["status"] == "survived"]
+def phase2(stages, limit=None, ids=None, outname="phase2%s.jsonl" % SET):
+    muts = {m["id"]: m for m in load("mutants%s.jsonl" % SET)}
+    surv = [r["id"] for r in load("phase1%s.jsonl" % SET) if r["status"] == "survived"]
     random.Random(7).shuffle(surv)
     if ids:
         surv = ids
@@ -285,9 +307,9 @@ def phase2(stages, limit=None, ids=None, outname="phase2.jsonl"):
 
 
 def report():
-    muts = {m["id"]: m for m in load("mutants.jsonl")}
-    p1 = load("phase1.jsonl")
-    p2 = load("phase2.jsonl")
+    muts = {m["id"]: m for m in load("mutants%s.jsonl" % SET)}
+    p1 = load("phase1%s.jsonl" % SET)
+    p2 = load("phase2%s.jsonl" % SET)
     c = {}
     for r in p1:
         c[r["status"]] = c.get(r["status"], 0) + 1
@@ -310,8 +332,8 @@ if __name__ == "__main__":
         lim = int(sys.argv[sys.argv.index("--limit") + 1]) if "--limit" in sys.argv else None
         if "--full" in sys.argv:
             # second pass over what the first pass did not detect
-            muts = {m["id"]: m for m in load("mutants.jsonl")}
-            nd = [r["id"] for r in load("phase2.jsonl") if not r["detected"]]
+            muts = {m["id"]: m for m in load("mutants%s.jsonl" % SET)}
+            nd = [r["id"] for r in load("phase2%s.jsonl" % SET) if not r["detected"]]
             def trivial(m):
                 b = m["before"].strip()
                 return (m["file"] == "view.rs" and 39 <= m["line"] <= 53) or b.startswith("debug_assert") or "with_capacity" in b \
@@ -319,8 +341,8 @@ if __name__ == "__main__":
             nd = [i for i in nd if not trivial(muts[i])]
             remapped = [i for i in nd if muts[i]["file"] in ("sort.rs", "translate.rs")]
             rest = [i for i in nd if i not in remapped]
-            phase2([("dbg", 1, "relevant"), ("rel", 1, "relevant"), ("dbg", 4, "others")], lim, remapped, "phase2_full.jsonl")
-            phase2([("dbg", 4, "others")], lim, rest, "phase2_full.jsonl")
+            phase2([("dbg", 1, "relevant"), ("rel", 1, "relevant"), ("dbg", 4, "others")], lim, remapped, "phase2_full%s.jsonl" % SET)
+            phase2([("dbg", 4, "others")], lim, rest, "phase2_full%s.jsonl" % SET)
         else:
             phase2([("dbg", 8, "relevant"), ("dbg", 1, "relevant"), ("rel", 1, "relevant")], lim)
     elif cmd == "report":
